@@ -57,7 +57,8 @@ func (vfs *OrefaFS) createNode(parent *node, absPath, fileName string, mode fs.F
 	nd := &node{
 		id:    atomic.AddUint64(vfs.lastId, 1),
 		mtime: time.Now().UnixNano(),
-		mode:  mode,
+		mode:  mode & fs.ModeType,
+		perm:  mode &^ fs.ModeType,
 		uid:   vfs.User().Uid(),
 		gid:   vfs.User().Gid(),
 		nlink: 1,
@@ -78,7 +79,7 @@ func (nd *node) fillStatFrom(name string) *OrefaInfo {
 		id:    nd.id,
 		name:  name,
 		size:  nd.size(),
-		mode:  nd.mode,
+		mode:  nd.mode | nd.perm,
 		mtime: nd.mtime,
 		uid:   nd.uid,
 		gid:   nd.gid,
@@ -143,8 +144,8 @@ func (nd *node) remove() {
 
 // setMode sets the permissions of the file node.
 func (nd *node) setMode(mode fs.FileMode) {
-	nd.mode &^= avfs.FileModeMask
-	nd.mode |= mode & avfs.FileModeMask
+	nd.perm &^= avfs.FileModeMask
+	nd.perm |= mode & avfs.FileModeMask
 }
 
 // setModTime sets the modification time of the node.
